@@ -4,6 +4,7 @@ from collections.abc import Iterable
 from collections.abc import Sequence
 from dataclasses import dataclass
 import decimal
+from numbers import Real
 from typing import Any
 from typing import TYPE_CHECKING
 
@@ -170,7 +171,10 @@ class BruteForceSampler(BaseSampler):
     ) -> None:
         # Populate tree under given params from the given trials.
         for trial in trials:
-            if not all(p in trial.params and trial.params[p] == v for p, v in params.items()):
+            if not all(
+                p in trial.params and _param_value_equal(trial.params[p], v)
+                for p, v in params.items()
+            ):
                 continue
             leaf = tree.add_path(
                 (
@@ -261,6 +265,13 @@ class BruteForceSampler(BaseSampler):
 
         if tree.count_unexpanded(exclude_running) == 0:
             study.stop()
+
+
+def _param_value_equal(value1: Any, value2: Any) -> bool:
+    # A NaN categorical choice must match itself although NaN != NaN.
+    value1_is_nan = isinstance(value1, Real) and np.isnan(float(value1))
+    value2_is_nan = isinstance(value2, Real) and np.isnan(float(value2))
+    return (value1 == value2) or (value1_is_nan and value2_is_nan)
 
 
 def _enumerate_candidates(param_distribution: BaseDistribution) -> Sequence[float]:
